@@ -771,7 +771,7 @@ impl<'a> Engine<'a> {
                     // polling contexts: ungated runs, the future is polled by executors other than the controlled drivers
                     // (fault-free plan and one single-failure plan)
                     if !cfg!(miri) {
-                        let ctxs: &[u8] = if kind.is_tasks() { &[1, 2, 3, 4, 5, 6] } else { &[7, 8, 9] };
+                        let ctxs: &[u8] = if kind.is_tasks() { &[1, 2, 3, 4, 5, 6, 10, 11] } else { &[7, 8, 9] };
                         let mut cplans: Vec<Plan> = vec![vec![]];
                         if !fids.is_empty() {
                             cplans.push(vec![(fids[rng.below(fids.len())], FAIL)]);
@@ -892,6 +892,7 @@ impl<'a> Engine<'a> {
                         rng.shuffle(&mut positions);
                         positions.truncate(limit);
                     }
+                    let mut ctx_panic_runs = 0usize;
                     for (id, fl) in positions {
                         let mut p: Plan = vec![(id, fl)];
                         // sometimes combine with a failure elsewhere
@@ -907,6 +908,17 @@ impl<'a> Engine<'a> {
                             self.stats.bump("panic_positions_not_reached_under_plan", 1);
                         }
                         self.exec(cx, &p, &default, nt);
+                        if kind.is_tasks() && exp.panics && !exp.panic_optional && ctx_panic_runs < 6 && !cfg!(miri) {
+                            // the panic also has to arrive when tokio itself polls the macro's future: on a multi-thread
+                            // runtime, and next to a sibling that exhausts the task's cooperative-scheduling budget
+                            ctx_panic_runs += 1;
+                            for pc in [10u8, 1, 11] {
+                                let s = Sched { poll_ctx: pc, bound_ms: 10_000, ..default.clone() };
+                                if self.exec(cx, &p, &s, nt).is_some() {
+                                    self.stats.bump(&format!("panic_runs_under_polling_context_{}", pc), 1);
+                                }
+                            }
+                        }
                         if kind.is_threads() && nt && !exp.panic_optional {
                             // thread handles are joined in branch order: the panic must reach the caller while the
                             // threads of higher-index siblings are still held at their gates
